@@ -71,6 +71,8 @@ class CallMixin(object):
             if cs is not None:
                 return self.call_with_args(cs, fv, e, st)
             raise OutsideSubset("call of value of type %r" % (fv.ty,))
+        if isinstance(f, ast.Attribute) and self.dotted(f, st) == "itertools.takewhile" and len(e.args) == 2:
+            return self.takewhile(e, st)
         if isinstance(f, ast.Attribute):
             d = self.dotted(f, st)
             if d is not None and isinstance(f.value, ast.Attribute):
@@ -109,6 +111,36 @@ class CallMixin(object):
                     raise OutsideSubset("call of computed function")
             return res
         raise OutsideSubset("call form")
+
+    def takewhile(self, e, st):
+        """itertools.takewhile(pred, seq): the longest prefix of seq whose elements satisfy pred (pred: a total lambda)."""
+        res = []
+        for st1, fv in self.ev(e.args[0], st):
+            if fv.ty is not CLOSURE:
+                raise OutsideSubset("takewhile with a non-lambda predicate")
+            for st2, seq in self.ev_iter(e.args[1], st1):
+                if seq.ty is STATIC:
+                    raise OutsideSubset("takewhile over a static sequence")
+                st2 = st2.copy()
+
+                def pred(j, st2=st2, seq=seq, fv=fv):
+                    self.spec_depth += 1
+                    n0 = len(self.spec_defs)
+                    try:
+                        outs = self.apply_closure(fv, [core.lget(seq, j)], {}, st2.copy(), e)
+                        if len(outs) != 1:
+                            raise OutsideSubset("takewhile predicate is not total")
+                        self.no_defs_under_binder(n0)
+                        return truthy(outs[0][1])
+                    finally:
+                        self.spec_depth -= 1
+                r = fresh(seq.ty, "takewhile")
+                m = core.llen(r)
+                st2.assume(m >= 0, m <= core.llen(seq),
+                           core.forall_int(0, m, lambda j: z3.And(z3.Select(core.larr(r), j) == z3.Select(core.larr(seq), j), pred(j))),
+                           z3.Or(m == core.llen(seq), z3.Not(pred(m))))
+                res.append((st2, r))
+        return res
 
     def call_super(self, mname, e, st):
         """super(...).m(...): resolved through the class statements of the module (first base that has a contract)."""
